@@ -2,10 +2,13 @@
   Line handlers for C16 (numeric comparison / MultipleOf).
   cmp <op> <kind> <val> <kind> <val>   → "<model> <spec>"   (1/0)
   mul <kind> <val> <kind> <val>        → "<model> <spec>"
+  fmul <kind> <val> <kind> <val>       → "<model>\t-"   (a float operand: the documented ε-rule, `NumFloat.multipleOfNum`;
+                                          the model observation is the oracle)
   kind ∈ i8 i16 i32 i64 int u8 u16 u32 u64 uint (val = decimal integer)
        | f32 f64 (val = decimal of the IEEE-754 binary64 bit pattern of the widened value)
 -/
 import Gozod.Model.Num
+import Gozod.Model.NumFloat
 namespace Gozod.Drv.C16
 open Gozod
 
@@ -38,6 +41,10 @@ def handle : List String → String
       match specMul x y with
       | some s => s!"{b2s (multipleOfInts x y)} {b2s s}"
       | none => "bad-op"
+    | _, _ => "bad-op"
+  | ["fmul", ka, a, kb, b] =>
+    match parseNum ka a, parseNum kb b with
+    | some x, some y => s!"{b2s (NumFloat.multipleOfNum x y)}\t-"
     | _, _ => "bad-op"
   | _ => "bad-op"
 
